@@ -223,3 +223,68 @@ func (s *Sched) Finish(maxSteps int) bool {
 
 // Cur is the thread being stepped (nil outside Step); for yield-hook wrappers.
 func (s *Sched) Cur() *Thread { return s.cur }
+
+// ---------------------------------------------------------------------------------------------
+// Additions for harnesses that let a logical thread REALLY block inside the library (C16: a
+// goroutine inside sync.Mutex.Lock() while the mutex is held, or inside WaitUtil's select). Such a
+// thread is "detached": it is not s.cur any more, nobody waits for its report; when the library
+// wakes it up it runs on by itself up to its next yield (YieldAs, called by the harness's hook
+// wrapper for the goroutine of a detached thread) or to the return of its operation, and its
+// event is picked up later by TryEnd. Nothing above this line uses any of it.
+
+// GID is the goroutine id of the caller.
+func GID() uint64 { return gid() }
+
+// GID is the goroutine id of the thread (0 before its first step).
+func (t *Thread) GID() uint64 { return t.gid }
+
+// Over reports whether the thread has no more operations (or died in a panic).
+func (t *Thread) Over() bool { return t.finished || t.dead }
+
+// Begin resumes thread tid and returns at once; the caller then polls TryEnd.
+func (s *Sched) Begin(tid int) *Thread {
+	t := s.Threads[tid]
+	s.cur = t
+	t.resume <- struct{}{}
+	return t
+}
+
+// TryEnd is the second half of Step, non-blocking: if the thread has reported an event the
+// bookkeeping of Step is done and the event returned.
+func (s *Sched) TryEnd(t *Thread) (Event, bool) {
+	select {
+	case ev := <-t.report:
+		if s.cur == t {
+			s.cur = nil
+		}
+		switch ev.Kind {
+		case KYield:
+			t.AtSite = ev.Site
+		case KRet:
+			t.AtSite = 0
+			t.opsDone()
+		case KPanic:
+			t.AtSite = 0
+			t.dead = true
+		}
+		if s.OnEvent != nil {
+			s.OnEvent(t, ev)
+		}
+		return ev, true
+	default:
+		return Event{}, false
+	}
+}
+
+// Detach gives up waiting for t's event: it is blocked inside the library.
+func (s *Sched) Detach(t *Thread) {
+	if s.cur == t {
+		s.cur = nil
+	}
+}
+
+// YieldAs is the yield of a detached thread, called on its own goroutine.
+func (s *Sched) YieldAs(t *Thread, site int) {
+	t.report <- Event{Kind: KYield, Site: site}
+	<-t.resume
+}
